@@ -117,7 +117,7 @@ PROPS["C05"] = dict(
     trusted_base=_CTL_TB, assumptions=_CTL_ASSUME,
     level_text="Kernel-checked (Props/C05.lean): driver calls of a Modification/Deletion Request carry the addressed SEID; the request rewrites only that session's "
                "slot (every other SEID resolves to the same value: rules, counters, queues); re-association touches only SEIDs in the node's own set; SEID-0 removal "
-               "matches CP SEID and node address. Tie: S-ctl 'nodes' + frame predicates on the implementation's dumps.",
+               "matches CP SEID and node address. Tie: S-ctl 'nodes' + frame predicates on the implementation's dumps. seid0_complete — the SEID-0 search finds a session with the answered request's control-plane SEID and the responder's address whenever one is live, however many sessions of other nodes carry the same control-plane SEID and wherever they sit in the table.",
     level_note="Trusted: as C01. The frame theorems are about the node OBJECT registered under an id (what the code keys on). The external ownership predicate reads the statement by the requests: a session "
                "belongs to the node id of its Establishment Request, later to the node id of a Modification Request that takes THAT session over; re-association of N must remove exactly those. "
                "The code's takeover renames the whole node object and can orphan a registered node: known finding takeoverNode (signature only in histories that contain a takeover; corpus/nodes.cases witnesses it on every run; Props/C05.takeover_orphans proves the witness on the model by evaluation).",
